@@ -128,6 +128,9 @@ def instances(tier: str) -> list[dict]:
             for other in (lk[0], lk[3]):
                 if rx != n or other == lk[0]:
                     out.append({"part": "regex", "tree": "T4k", "naming": "adv", "rx": rx, "other": other})
+        # the SAME text on both sides, once as a regex and once as a module name (what a regex matches and what a name
+        # stands for are different things even when they are spelt alike)
+        out.append({"part": "regex", "tree": "T4k", "naming": "adv", "rx": n, "other": n})
     # object / subject batches holding a module together with one of its own sub modules (every tier)
     nested = concrete("T4n", "neutral")  # p; p.a (p.a.x); p.b
     pa, pax, pb = nested[1], nested[2], nested[3]
